@@ -44,6 +44,7 @@ func run(r *core.Run) {
 		panic(err)
 	}
 	defer w.Close()
+	w.Named = true
 	c05.MaxValueBits = int64(core.Pick(r, 1<<26, 1<<28))
 	var st Stats
 	var evals int64
